@@ -459,8 +459,12 @@ def run_power(case):
         w = np.array(([3.0, 3.0, 1.0, 0.5, 0.5] * 2)[:n])
         H = (Q * w) @ Q.conj().T
     H = (H + H.conj().T) / 2
+    # the power iteration is scale invariant: operators of norm ~1e-8 and ~1e+8 as well
+    hs = [1.0, 1.0, 1e-8, 1e8][case["aseed"] % 4]
+    H = H * hs
     lmax = float(np.linalg.eigvalsh(H)[-1])
-    sig = "power|%s|%s|%s|mi%d" % (case["spec"], "c" if cplx else "r", case["via"], case["mi"])
+    sig = "power|%s|%s|%s|mi%d|s%g" % (case["spec"], "c" if cplx else "r", case["via"],
+                                       case["mi"], hs)
     wit = dict(case)
     ests = []
 
